@@ -85,7 +85,7 @@ func TestVerifC27(t *testing.T) {
 		tb := verifc27.NewTable()
 		tb.UtilFrames(d, pass, all)
 		cases.Write(verifh.Case{In: "udec " + verifh.Hex(string(d)) + " " + tb.String(), Impl: c27Impl(got, err), Desc: kind})
-		stats.Inc("decrypt." + kind)
+		stats.Inc("decrypt." + verifc27.StatKind(kind))
 
 		input := "data=" + verifh.Hex(string(d)) + " pass=" + verifh.Hex(pass) + " (" + kind + ")"
 
@@ -246,6 +246,78 @@ func TestVerifC27(t *testing.T) {
 
 	for i := 0; i < verifh.N(60, 300); i++ {
 		family("legacy", i, 1)
+	}
+
+	// ---- key sweep: the LENGTH of the passphrase and the POSITION of a key difference.
+	// A ciphertext made under k must open under k only: every passphrase of KeyVariants(k)
+	// (one changed bit at a chosen byte position, an appended suffix, a cut, a case change, a
+	// trailing NUL) must be refused.  legacy (MD5-keyed, cheap): every length x every position;
+	// v2 (PBKDF2, ~25 ms per derivation): every length with the few essential differences and
+	// the boundary positions for the 128-character token-key length; v3 (Argon2id, ~0.3 s per
+	// derivation, two per line): a 128-character token-like key and a 1000-byte key in the
+	// quick tier, a budgeted set of lengths in the thorough tier.
+	kr := verifh.Rand(2704)
+
+	keyFamily := func(kind string, n, style, level int) {
+		pass := verifc27.KeyOfLen(kr, n, style)
+		plain := verifc27.Plain(kr, 2+kr.Intn(16))
+
+		var d []byte
+
+		switch kind {
+		case "v3":
+			s, err := Encrypt(plain, pass)
+			if err != nil {
+				t.Fatalf("Encrypt: %v", err)
+			}
+
+			d = []byte(s)
+		case "v2":
+			d = verifc27.UtilV2(kr, plain, pass)
+		default:
+			d = verifc27.UtilLegacy(kr, plain, pass)
+		}
+
+		honestPass = "=" + pass
+
+		defer func() { honestPass = "" }()
+
+		check(kind+".key.honest", d, pass, &plain)
+
+		for _, v := range verifc27.KeyVariants(kr, pass, level) {
+			check(kind+".key."+v.Kind, d, v.Key, nil)
+			stats.Inc("keysweep." + kind)
+		}
+
+		stats.Inc("keysweep_families." + kind)
+	}
+
+	for _, n := range verifc27.KeyLens {
+		for style := 0; style < 2; style++ {
+			keyFamily("legacy", n, style, 3)
+		}
+
+		level := 0
+		if n == 128 {
+			level = 2
+		} else if n == 65 || n == 1000 {
+			level = 1
+		}
+
+		if verifh.Thorough() {
+			level = max(level+1, 2)
+		}
+
+		keyFamily("v2", n, n%2, level)
+	}
+
+	keyFamily("v3", 128, 0, 1)
+	keyFamily("v3", 1000, 1, 0)
+
+	if verifh.Thorough() {
+		for _, n := range []int{17, 33, 64, 65, 73, 100, 256} {
+			keyFamily("v3", n, n%2, 1)
+		}
 	}
 
 	// ---- junk
